@@ -5,6 +5,6 @@ CONSTANTS
   Batch = 32
   RejoinMs = 30000
   MaxL = 4
-  Check = {"C01","C02","C03","C04","C05","C06","C07","C08","C09","C10","C12","C13","C14","C19","C20"}
+  Check = {"C17"}
 POSTCONDITION TraceAccepted
 CHECK_DEADLOCK FALSE
